@@ -133,6 +133,59 @@ def repair (c : Cluster) (j i : Nat) (removalsFirst : Bool) : Cluster × RepairO
       (setNode c1 j { me' with tracker := tr }, .synced modified.length removed.length)
     else (c1, .failed)
 
+/-! ### The same exchange in two steps: the peer's store may change between the state snapshot and the document fetch -/
+
+/-- What an exchange has decided once it holds the peer's state: the two lists of the difference,
+the peer's change stamp, the order of the halves, and whether the first half succeeded. -/
+structure Pending where
+  peer : Nat
+  modified : List (Nat × Nat)
+  removed : List (Nat × Nat)
+  lastUpdated : Nat
+  removalsFirst : Bool
+  deriving Repr
+
+inductive BeginOut where
+  | finished (out : RepairOut)        -- nothing to fetch: the exchange is over
+  | fetching (p : Pending)            -- the document fetch is on its way to the peer
+  deriving Repr
+
+def finishTracker (c : Cluster) (j i lastUpdated : Nat) : Cluster :=
+  let me' := getNode c j
+  let tr := (List.range (max me'.tracker.length (i + 1))).map (fun x =>
+    if x = i then some lastUpdated else me'.tracker.getD x none)
+  setNode c j { me' with tracker := tr }
+
+/-- Poll, `GetState`, `Diff`, and whatever precedes the fetch of the documents. -/
+def repairBegin (c : Cluster) (j i : Nat) (removalsFirst : Bool) : Cluster × BeginOut :=
+  let peer := getNode c i
+  let me := getNode c j
+  if !peer.exists_ then (c, .finished .skipped)
+  else if me.tracker.getD i none == some peer.change then (c, .finished .skipped)
+  else
+    let c := touch c j
+    let me := getNode c j
+    let (modified, removed) := diff me.ks.set peer.ks.set
+    let p : Pending := ⟨i, modified, removed, peer.change, removalsFirst⟩
+    if removalsFirst then
+      let (c1, ok1) := applyRemovals c j removed
+      if !ok1 then (c1, .finished .failed)
+      else if modified.isEmpty then (finishTracker c1 j i peer.change, .finished (.synced 0 removed.length))
+      else (c1, .fetching p)
+    else if modified.isEmpty then
+      let (c1, ok2) := applyRemovals c j removed
+      if ok2 then (finishTracker c1 j i peer.change, .finished (.synced 0 removed.length)) else (c1, .finished .failed)
+    else (c, .fetching p)
+
+/-- The fetch is answered from the peer's store AS IT IS NOW; then the rest of the exchange. -/
+def repairEnd (c : Cluster) (j : Nat) (p : Pending) : Cluster × RepairOut :=
+  let (c1, ok1) := applyModified c j p.peer p.modified
+  if !ok1 then (c1, .failed)
+  else if p.removalsFirst then (finishTracker c1 j p.peer p.lastUpdated, .synced p.modified.length p.removed.length)
+  else
+    let (c2, ok2) := applyRemovals c1 j p.removed
+    if ok2 then (finishTracker c2 j p.peer p.lastUpdated, .synced p.modified.length p.removed.length) else (c2, .failed)
+
 /-- `PurgeDeletes` on node `j` (storage succeeding). -/
 def purge (c : Cluster) (j : Nat) : Cluster :=
   let c := touch c j
